@@ -33,6 +33,8 @@ FIXED = {  # commit subject (without 'fix: ') -> (properties, what failed / how 
  "a capacity given in a non-volume unit is rejected instead of being read as litres": ("C14", "Container('x','10 g') / Plate('p','5 mmol') discarded the unit of the capacity: '10 g' meant 10 L"),
  "parse_concentration rejects trailing tokens after the denominator unit": ("C14", "'1 ng/10 ng mL' was read as 0.1 g/g: tokens after the first denominator unit were ignored"),
  "parse_concentration rejects an SI prefix glued to a percent sign ('1 m%w/w')": ("C14", "'11 \u00b5%w/w' was read as 1.1e-07 g/g: the percent sign was replaced textually, so any characters before it became a prefix of the unit"),
+ "element-wise transfers between two lists of wells lost or created material when a well was named twice": ("C01", "Plate.transfer(p[['A:2','A:2','A:1']], p[[(4,1),'D:2','D:2']], q): all pairs were computed from the original wells and written back afterwards, so a source named twice was drained once (material created) and a destination named twice kept only the last aliquot (material lost)"),
+ "a recipe's fill_to step fills a container or a whole plate once, not twice": ("C07", "bake() filled the object and then filled the result again; the second pass only adds rounding noise, which is refused ('Exceeded maximum volume') when the target is the capacity, e.g. a whole plate filled by mass with chloroform: the recipe step raised where the direct call returns"),
  "step-adding calls are refused with RuntimeError once the recipe has been baked": ("C16", "after bake(), remove / dilute / fill_to appended steps to the locked recipe (tracking answers changed) and create_solution(_from) could raise an unrelated ValueError instead of RuntimeError"),
  "a recipe's create_solution refuses a solvent container that was not declared": ("C16", "create_solution(solvent=<undeclared Container>) was accepted, baked and added to the results"),
  "end_stage('all') without an open stage is refused": ("C16", "end_stage('all') with no open stage passed the name check and overwrote the whole-recipe timeframe"),
